@@ -10,6 +10,33 @@ ALL = ['C%02d' % i for i in range(1, 21)]
 
 # text of the level claimed per property (what assurance, in my own words) + trusted base note
 LEVEL = {
+    'C01': ('composite proof: Verus discharges the per-operator translation (unit C), the per-entity attribute preservation (unit D), the index-map bijections (unit B) and the section order / frame of emit_wasm (unit I) on the real text; observational equivalence follows from these under the stated semantic assumption A-sem',
+            'DESIGN.md §6 C01',
+            'A-sem (renumbering / dead-code elision unobservable) is not checkable here (no interpreter); whole-body instruction order, local slot assignment, br_table, data/element emitters are bounded stand-ins (op, cf, entities, builder batteries)'),
+    'C02': ('composite proof: Verus proves on the real emit_wasm that every section emitter runs after the index spaces it reads are complete, that index maps return what was pushed, and that GC keeps a reference-closed set and deletes exactly the rest; validity of the bytes is then checked by bounded stand-ins against an independent validator',
+            'DESIGN.md §6 C02',
+            'validity is the validator\'s judgement (A-deps); panic-freedom of individual emitters only in absent mode; stand-ins: gc, features, builder, replace, names, config batteries'),
+    'C05': ('Verus proves in no_panic mode, arm by arm on the real payload loop of Module::parse, that nothing is interpreted before the validator accepted it and that validator errors are returned untouched; likewise for the operator loop of LocalFunction::parse; the feature set is proved exact (unit I)',
+            'DESIGN.md §5 unit K, §6 C05',
+            'totality of the interpreters behind the gate, completeness, stack depth and termination are a bounded stand-in (gate battery: ~10^5 mutated byte strings against an independent validator, deep nesting)'),
+    'C10': ('Verus proves both directions of the DWARF address translation on the real functions: an instruction address is classified as, and mapped to, exactly its instruction; a function-relative address to exactly its function; anything without an output entry yields None (tombstoned)',
+            'DESIGN.md §5 unit H, §6 C10',
+            'binary searches by assumed std contract on sorted tables; sortedness of the tables and the gimli-driven rewriting (line programs, high_pc) are a bounded stand-in (dwarf battery with synthesized DWARF v4/v5); F11 (spanning sequences panic) is an open known finding'),
+    'C11': ('Verus proves, on the real text, that every instruction / else / end is recorded at the encoder offset before its opcode is written (unit C) and that the module-level bookkeeping shifts body-relative pairs by the body start, drops default-location pairs, and reports each function range as [entry, entry + prefix + body)',
+            'DESIGN.md §5 unit H, §6 C11',
+            'tail of ModuleFunctions::emit (sorting, code_section_start) and wasm-encoder re-encoding the size prefix: bounded stand-in (offsets battery)'),
+    'C13': ('Verus proves for every name map of parse_name_section (real loop bodies) that exactly the entity the input index denotes is renamed and nothing else changes; local names go through the map of the same function',
+            'DESIGN.md §5 unit N, §6 C13',
+            'emit_name_section is iterator chains over hash maps: bounded stand-in only (names battery)'),
+    'C15': ('Verus proves on the real builder text (incl. the 96 macro-generated methods, checked against the unexpanded enum) that append / positional insert / nested block, loop, if-else construction build exactly the tree the calls describe',
+            'DESIGN.md §5 unit J, §6 C15',
+            'user closures by assumed API-step contract (A-ext); emission of the built tree (traversal order, branch depths, local slots) is a bounded stand-in (builder battery) on top of unit C'),
+    'C18': ('Verus proves whole-function contracts on the real replace_imported_func / replace_exported_func: id kept resp. new function added, signature preserved, exactly one import deleted resp. exactly one export retargeted, everything else untouched, nothing changed on error',
+            'DESIGN.md §5 unit J, §6 C18',
+            'collections by assumed contract (units A/D), user body builder A-ext; observable rewiring in the emitted binary is a bounded stand-in (replace battery)'),
+    'C20': ('Verus proves (unit C) that block signatures that fit the inline MVP form are always kept inline and that block types / table and memory operands are re-emitted in the class they were parsed in',
+            'DESIGN.md §5 unit C, §6 C20',
+            'data-count section and element-segment encodings are not under contract yet: bounded stand-in (features battery: every proposal the input validates without, the output validates without)'),
     'C03': ('one Verus obligation per operator arm of append_instruction (520+ arms, all immediates symbolic) proving that the instruction it appends is emitted by Emit::visit_instr as the mirror operator under the index renumbering; plus contracts on the control-stack functions, memarg loop, block open/close emission',
             'DESIGN.md §5 unit C, §6 C03',
             'assumes wasmparser/wasm-encoder enums correspond as generated by tools/mirrorgen.py (validated by the replay crate), id_arena/std stubs, iterator-adapter chains (BrTable, branch_target) and block_*_tys by assumed contract; instruction ORDER within a body is only proved per step'),
